@@ -213,6 +213,10 @@ func (t *FnTrans) acquire(mon *monRef, ref string) {
 			// range of the field's Go type
 			if ft := t.fieldTypeByName(mon.ts.Name, g); ft != nil {
 				t.assume(t.rangeFact(fv, ft))
+				if _, isPtr := t.resolve(ft).Underlying().(*types.Pointer); isPtr && !t.mayHavePublished {
+					// what other goroutines stored cannot be an object this call allocated and has not published
+					t.assume(or(app("<", fv, q("$alloc@0")), eq(fv, "0")))
+				}
 			}
 		}
 		t.cur.H[c] = app("store", t.get(c), ref, fv)
